@@ -15,6 +15,12 @@ func ByNames(names []string) []Script {
 			out = append(out, &ValRewards{})
 		case "governance":
 			out = append(out, &Governance{Tag: "g"})
+		case "eth":
+			out = append(out, &Eth{Tag: "e"})
+		case "evidence":
+			out = append(out, &Evidence{Tag: "ev"})
+		case "olvm":
+			out = append(out, &OLVM{})
 		case "stakingb":
 			out = append(out, &Staking{Boundary: true})
 		}
